@@ -377,8 +377,13 @@ class Replayer:
         """(bytes, size) of inode n: mode 'vol' | 'dur' | 'os' (durable + all un-synced writes)
         cut = (event index, keep) truncates the write made by that event to keep bytes"""
         if n.ext is not None:
-            with open(n.ext, "rb") as fh:
-                b = fh.read()
+            # content taken from the recorded directory (mmap-written CAS files); a variant of the
+            # code under test may have deleted the file afterwards: then there is nothing to take
+            try:
+                with open(n.ext, "rb") as fh:
+                    b = fh.read()
+            except FileNotFoundError:
+                b = b""
             return b, len(b)
         if mode == "vol":
             return bytes(n.data), n.size
